@@ -75,7 +75,67 @@ class _Ctx:
     current_source_file = 's_c09'
 
 
+FA_TEMPLATES = ['[X|T]', '[X,T]', 'g(X,T)', 'T', 'g([X|T])', '[T|X]', 'g(T,T)']
+
+
+def run_findall_copy(sc):
+    """findall(Template, item(X), L) with a free variable T in the template: every collected instance has its OWN copy of T - after
+    T is bound none of them has changed, and no two share it (through the API and from a compiled clause)"""
+    yp = engine.YP()
+    for c in ('a', 'b'):
+        yp.assert_fact(yp.atom('item'), [yp.atom(c)])
+    env = {}
+    tmpl = build(yp, sc['template'], env)
+    X, T = env.get('X', yp.variable()), env['T']
+    L = yp.variable()
+    probs = []
+    n = 0
+
+    def t_positions(inst, pattern):
+        # walk instance and pattern together, collect what stands where the pattern has T
+        out = []
+
+        def rec(i, p_):
+            i = engine.get_value(i)
+            if p_ is T:
+                out.append(i)
+            elif isinstance(p_, engine.Functor) and isinstance(i, engine.Functor) and len(i._args) == len(p_._args):
+                for a, b in zip(i._args, p_._args):
+                    rec(a, b)
+        rec(inst, pattern)
+        return out
+    goal = yp.functor('item', [X])
+    if sc.get('compiled'):
+        yp.load_script_from_string(compile_prolog_from_string('fa(L, T) :- findall(%s, item(X), L).\n' % sc['template'], _Ctx))
+        q = yp.query('fa', [L, T])
+    else:
+        q = yp.query('findall', [tmpl, goal, L])
+    for _ in q:
+        n += 1
+        for _ in engine.unify(T, yp.atom('z')):
+            lst = engine.get_value(L)
+            insts = []
+            while isinstance(lst, engine.Functor) and lst._name == '.' and len(lst._args) == 2:
+                insts.append(lst._args[0])
+                lst = engine.get_value(lst._args[1])
+            if len(insts) != 2:
+                probs.append('%d instances collected, expected 2' % len(insts))
+            seen = []
+            for inst in insts:
+                for v in t_positions(inst, tmpl):
+                    if not isinstance(v, engine.Variable):
+                        probs.append('an instance of %s changed when T was bound afterwards' % sc['template'])
+                    elif any(v is w for w in seen) and sc['template'] != 'g(T,T)':
+                        probs.append('two instances of %s share one variable' % sc['template'])
+                    seen.append(v)
+    if n != 1:
+        probs.append('findall has %d answers, expected 1' % n)
+    return not probs, '; '.join(sorted(set(probs))) or 'ok'
+
+
 def run(sc):
+    if sc.get('kind') == 'findall_copy':
+        return run_findall_copy(sc)
     yp = engine.YP()
     yp.load_script_from_string(compile_prolog_from_string(SRC, _Ctx))
     probs = []
@@ -121,6 +181,7 @@ def run(sc):
 
 def scenarios(seed, count):
     out = [dict(t1=a, t2=b) for a, b in itertools.product(SHAPES, SHAPES)]
+    out += [dict(kind='findall_copy', template=t, compiled=c, t1='-', t2=t) for t in FA_TEMPLATES for c in (False, True)]
     random.Random(seed).shuffle(out)
     return out[:count]
 
@@ -143,9 +204,9 @@ def main():
         if not ok and len(fails) < 20:
             fails.append(dict(scenario=sc, detail=detail))
     print(json.dumps(dict(evaluations=n, distinct_nontrivial=len(nontriv), failures=fails, failure_count=len(fails), samples=scs[:3],
-                          exhaustive=count >= len(SHAPES) ** 2,
+                          exhaustive=count >= len(SHAPES) ** 2 + 2 * len(FA_TEMPLATES),
                           rule='all ordered pairs of %d term shapes (incl. pairs whose unifier is cyclic): answers of =, \\=, compiled = and \\= '
-                               '(in the clause contexts eq, ne, %s) counted against the engine\'s unify; non-trivial = the two shapes differ'
+                               '(in the clause contexts eq, ne, %s) counted against the engine\'s unify; plus findall/3 with a free variable in the template (7 templates, API and compiled): instances are fresh copies; non-trivial = the two shapes differ'
                                % (len(SHAPES), ', '.join(c[0] for c in CONTEXTS)))))
 
 
